@@ -174,12 +174,20 @@ def body(data) -> Outcome:
     out.nontrivial = any(fn["mapspec"] and counts[fn["name"]] >= 2 for fn in prog["funcs"])
     folder = boot.fresh_path("c04")
     side = boot.fresh_path("c04side") + ".json"
-    inputs = mp.make_inputs(prog)
+    # every third program has its root inputs in a scope ("grid.r0", "grid.r1": dotted names in the run folder)
+    import zlib
+
+    scope = "grid." if zlib.crc32(json.dumps(prog, sort_keys=True).encode()) % 3 == 0 and mp.used_roots(prog) else ""
+    if scope:
+        out.labels.append("scoped-root-inputs")
+    inputs = {scope + k: v for k, v in mp.make_inputs(prog).items()}
 
     def run(inputs=inputs):
         from pipefunc.map._run_info import RunInfo
 
         pipe = mp.build_pipeline(prog)
+        if scope:
+            pipe.update_scope("grid", inputs="*")
         pipe.map(inputs, run_folder=folder, internal_shapes=mp.internal_shapes_arg(prog), storage=mp.storage_arg(prog),
                  parallel=False, persist_memory=True)  # fmt: skip
         return summary(RunInfo.load(folder))
@@ -191,7 +199,7 @@ def body(data) -> Outcome:
             return out
         child = r["result"]
         use_xarray = xarray_domain(prog)
-        roots1d = [r for r in inputs if len(prog["roots"][r]["axes"]) == 1]
+        roots1d = [r for r in inputs if len(prog["roots"][r[len(scope):]]["axes"]) == 1]
         for where in ("same-process", "fresh-interpreter"):
             out.labels.append(where)
             if where == "same-process":
@@ -244,6 +252,7 @@ def body(data) -> Outcome:
         if data.get("rerun", True):
             inputs2 = mp.make_inputs(prog, variant="'")
             ref2 = mp.denotation(prog, inputs=inputs2)
+            inputs2 = {scope + k: v for k, v in inputs2.items()}
             r2 = faultfs.run_child(lambda: run(inputs2), folder, None, side)
             if not r2.get("ok"):
                 out.fail("second-run-into-same-folder-refused", str({k: v for k, v in r2.items() if k != "result"})[:300])
